@@ -268,10 +268,14 @@ class Constructor:
             known_keys.remove('_yatiml_extra')
 
         for key_node, value_node in node.value:
-            if (not isinstance(key_node, yaml.ScalarNode)
-                    or key_node.tag != 'tag:yaml.org,2002:str'):
+            if not isinstance(key_node, yaml.ScalarNode):
                 raise RecognitionError(
-                    '{}\nExpected a string here.'.format(node.start_mark))
+                    '{}\nExpected a string here.'.format(
+                        key_node.start_mark))
+            if key_node.tag != 'tag:yaml.org,2002:str':
+                raise RecognitionError(
+                    '{}\nFound a key "{}", which is not a string.'.format(
+                        key_node.start_mark, key_node.value))
             if key_node.value not in known_keys:
                 strip_tags(self.__loader, value_node)
 
